@@ -47,6 +47,7 @@ type Gen struct {
 	Funcs       map[string]*ssa.Function // contract key -> function
 	Unsupported map[string][]string      // function key -> reasons
 	reach       map[*ssa.Function]bool
+	recursive   map[*ssa.Function]bool
 }
 
 type StructSort struct {
@@ -178,7 +179,14 @@ func FuncKey(f *ssa.Function) string {
 	if f.Parent() != nil {
 		return FuncKey(f.Parent()) + "$" + f.Name()
 	}
-	return pkg + "." + f.Name()
+	name := f.Name()
+	if i := strings.Index(name, "["); i > 0 {
+		name = name[:i] // instance of a generic function: contracts are keyed by the generic name
+	}
+	if pkg == "" && f.Origin() != nil && f.Origin().Pkg != nil {
+		pkg = f.Origin().Pkg.Pkg.Path()
+	}
+	return pkg + "." + name
 }
 
 func (g *Gen) IsRepoFunc(f *ssa.Function) bool {
@@ -585,4 +593,17 @@ func (g *Gen) pos(p token.Pos) string {
 	}
 	q := g.Fset.Position(p)
 	return fmt.Sprintf("%s:%d", strings.TrimPrefix(q.Filename, g.RepoDir+"/"), q.Line)
+}
+
+// gatOfFamily: the element-access function of a sequence family ("" if the family is not one).
+func (g *Gen) gatOfFamily(f string) string {
+	if !strings.HasPrefix(f, "Q_") {
+		return ""
+	}
+	srt := g.families[f]
+	const pre = "(Array Int (Array Int "
+	if !strings.HasPrefix(srt, pre) {
+		return ""
+	}
+	return gatName(strings.TrimSuffix(strings.TrimPrefix(srt, pre), "))"))
 }
